@@ -95,12 +95,23 @@ def moveInRenameB (s : Sys) (b : List Op) : Bool :=
       watchedDir s.fs true (parentOf q1) && watchedDir s.fs true (parentOf q2)
   | _ => false
 
+/-- "renamed twice in a row": `rename a b; rename b c` - `a` a directory of the watched tree, `b` and `c` free names in
+    directories of the tree that do not lie inside `a` -/
+def renameChainB (s : Sys) (b : List Op) : Bool :=
+  match b with
+  | [.rename a b1, .rename b1' c] =>
+    b1 == b1' && s.fs.isDir a && decide (2 ≤ a.length) && decide (2 ≤ b1.length) && decide (2 ≤ c.length) &&
+      !s.fs.exists b1 && !s.fs.exists c && s.fs.isDir (parentOf b1) && s.fs.isDir (parentOf c) && (a != b1) && (a != c) &&
+      !isUnder a b1 && !isUnder a c && (b1 != c) && !isUnder b1 c && watchedDir s.fs true (parentOf a) &&
+      watchedDir s.fs true (parentOf b1) && watchedDir s.fs true (parentOf c)
+  | _ => false
+
 /-- executable twin of `okBurst` / `pacedOK` (hypothesis of `paced_run`): every burst is a burst of file operations, a
     nested creation burst, a directory created and immediately renamed, a directory that arrived from outside and is
-    renamed at once, or one valid operation other than the removal of
+    renamed at once, a directory of the tree renamed twice in a row, or one valid operation other than the removal of
     the root -/
 def okBurstB (s : Sys) (b : List Op) : Bool :=
-  allFileB s b || allGrowB s b || mkRenameB s b || moveInRenameB s b ||
+  allFileB s b || allGrowB s b || mkRenameB s b || moveInRenameB s b || renameChainB s b ||
     (match b with
      | [op] => validOp s.fs op && (op != .rmdir ["W"])
      | _ => false)
